@@ -27,9 +27,9 @@ const TABLE: [Entry; 8] = [
     Entry { coin: 3_000_000, a: 0, b: 0 },
     Entry { coin: 3_000_000, a: 0, b: 0 },
     Entry { coin: 10_000_000, a: 0, b: 0 },
-    Entry { coin: 2_000_000, a: 50, b: 0 },
+    Entry { coin: 2_000_000, a: 20, b: 0 },
     Entry { coin: 2_000_000, a: 0, b: 70 },
-    Entry { coin: 4_000_000, a: 30, b: 40 },
+    Entry { coin: 4_000_000, a: 20, b: 40 },
     Entry { coin: 1_200_000, a: 0, b: 0 },
     // index 7: the foreign pre-existing input (never offered)
     Entry { coin: 1_500_000, a: 0, b: 0 },
@@ -81,7 +81,9 @@ fn utxo(i: usize) -> TransactionUnspentOutput {
     TransactionUnspentOutput::new(&crate::builder::op_outpoint(i), &TransactionOutput::new(&addr, &value_of(e.coin, e.a, e.b)))
 }
 
-const OUTS: [&[(u64, u64, u64)]; 5] = [&[(2_000_000, 0, 0)], &[(2_000_000, 0, 0), (5_000_000, 0, 0)], &[(2_000_000, 20, 0)], &[(3_000_000, 10, 10)], &[(2_500_000, 0, 0), (2_500_000, 0, 0)]];
+// the last configuration asks for one asset in three outputs (10 + 8 + 8 of A against UTxOs holding
+// 20 each): the surplus of one pick covers the next output entirely but not the one after
+const OUTS: [&[(u64, u64, u64)]; 6] = [&[(2_000_000, 0, 0)], &[(2_000_000, 0, 0), (5_000_000, 0, 0)], &[(2_000_000, 20, 0)], &[(3_000_000, 10, 10)], &[(2_500_000, 0, 0), (2_500_000, 0, 0)], &[(1_500_000, 10, 0), (1_500_000, 8, 0), (1_500_000, 8, 0)]];
 const IMPLICIT: [u64; 3] = [0, 1_000_000, 20_000_000];
 
 fn strategy(i: usize) -> CoinSelectionStrategyCIP2 {
@@ -350,7 +352,7 @@ pub fn scenario(name: &str, tier: Tier) -> Option<BoxedScenario> {
 pub fn run(tier: Tier, seed: u64) -> i32 {
     let mut rep = Report::new(P, tier, seed);
     let n = if tier.thorough() { 7 } else { 6 };
-    rep.rule = format!("4 strategies x 5 output configurations (incl. two identical outputs) x 3 implicit inputs x 3 pre-existing-input situations x every offered subset of size <= {} of a 7-entry table x offered order as listed / reversed x (table values | entry 2 worth exactly (outputs + min fee before selection - held) + delta for delta in 0,1,100,3000,6500,9000,12500) x EVERY sequence of RNG answers (selection, improvement swaps, fee top-up); distinct = distinct (scenario, RNG sequence, resulting input set)", n);
+    rep.rule = format!("4 strategies x 6 output configurations (incl. two identical outputs, and one asset asked for by three outputs) x 3 implicit inputs x 3 pre-existing-input situations x every offered subset of size <= {} of a 7-entry table x offered order as listed / reversed x (table values | entry 2 worth exactly (outputs + min fee before selection - held) + delta for delta in 0,1,100,3000,6500,9000,12500) x EVERY sequence of RNG answers (selection, improvement swaps, fee top-up); distinct = distinct (scenario, RNG sequence, resulting input set)", n);
     rep.bound("max_offered", serde_json::json!(n));
     rep.assume("a UTxO set is a function: every offered outpoint has one owner and one value");
     rep.assume("the left side of the coverage inequality is computed from the scenario's table by outpoint, never from the builder's own totals");
